@@ -1,2 +1,57 @@
-(* placeholder, replaced below *)
-From Verif Require Import Base.Str Base.GoSlice Interp.Isolation.
+(* Props/C27.v — Subshells cannot change the parent shell. Theorems only.
+   Model: Interp/Isolation.v (Runner state on the Go-slice heap), describing the
+   code after fix d35f0af.  wf_heap / wf_runner = no dangling pointers (what Go's
+   memory safety gives for every reachable state). *)
+From Verif Require Import Base.Str Base.GoSlice Interp.Isolation Proofs.IsolationProofs.
+
+(* For every growth policy of the Go runtime, every parent state, foreground
+   (( ), $( )) and background (<( ), >( ), pipeline stage, &, Runner.Subshell)
+   copies, and EVERY list of child operations: what the parent observes
+   (all variables resolved through the heap, functions, aliases, options,
+   directory, directory stack, positional parameters) is unchanged. *)
+Theorem C27_isolated :
+  forall (grow : nat -> nat -> nat) (r : runner) (h : heaps) (bg : bool) (ops : list op),
+    wf_heap h -> wf_runner r h ->
+    observe r (st_h (run_ops grow ops (subshell_state grow bg r h))) = observe r h.
+Proof. exact isolated. Qed.
+Print Assumptions C27_isolated.
+
+(* the ownership invariant itself, without any well-formedness hypothesis: every
+   cell that existed when the subshell was created keeps its contents *)
+Theorem C27_child_writes_only_own_cells :
+  forall grow r h bg ops,
+    let g := st_h (run_ops grow ops (subshell_state grow bg r h)) in
+    (forall l, l < length (ha h) -> nth_error (ha g) l = nth_error (ha h) l) /\
+    (forall l, l < length (ho h) -> nth_error (ho g) l = nth_error (ho h) l).
+Proof. exact child_writes_only_own_cells. Qed.
+Print Assumptions C27_child_writes_only_own_cells.
+
+(* non-vacuity: a well-formed parent with an array, an associative array and a
+   function; a child whose own view does change *)
+Example C27_hypotheses_satisfiable :
+  wf_heap (st_h ex_parent) /\ wf_runner (st_r ex_parent) (st_h ex_parent).
+Proof. exact ex_parent_wf. Qed.
+Example C27_child_sees_its_change :
+  forall bg,
+    observe_var (st_r (ex_child bg)) (st_h (ex_child bg)) [97%N] <>
+    observe_var (st_r ex_parent) (st_h ex_parent) [97%N].
+Proof. exact ex_child_sees_change. Qed.
+
+(* FIXED finding (d35f0af): with assignVal's old `prev.List[0] += s` (no clone) the
+   property was refuted for foreground and background copies: a=(x y); (a+=z) *)
+Theorem C27_old_array_scalar_append_refuted :
+  forall bg, exists r h,
+    wf_heap h /\ wf_runner r h /\ observe r (old_child_heap bg r h) <> observe r h.
+Proof. exact old_append_scalar_changes_parent. Qed.
+Print Assumptions C27_old_array_scalar_append_refuted.
+
+(* OPEN finding, class pipeline_last_stage_in_parent: the property as stated
+   ("as a pipeline stage") fails for the LAST stage, which runs in the parent
+   Runner itself:  forall r h left right, observe (pipeline left right r h) = observe r h
+   is refuted; every other stage is a background copy and covered by C27_isolated. *)
+Theorem C27_pipeline_last_stage_refuted :
+  exists r h right_,
+    wf_heap h /\ wf_runner r h /\
+    observe (st_r (pipeline ex_grow [] right_ r h)) (st_h (pipeline ex_grow [] right_ r h)) <> observe r h.
+Proof. exact pipeline_last_stage_changes_parent. Qed.
+Print Assumptions C27_pipeline_last_stage_refuted.
